@@ -285,7 +285,7 @@ class Gen:
             raise Undecided(f'lost anchor for {fid}: {e}')
         fn = {'id': fid, 'props': props, 'file': kv['file'], 'name': kv['name'],
               'repo_lines': [it.line_start, it.line_end], 'sha256': sha(it.text), 'rule_hits': {},
-              'kind': 'fn', 'gen_start': len(self.lines) + 1}
+              'kind': 'fn', 'gen_start': len(self.lines) + 1, 'implements': kv.get('implements')}
         self._cur_fn = fn
         i += 1
         # signature + contract lines until //@body
